@@ -414,8 +414,8 @@ def run_job(job):
 
 def jobs(tier, seed):
     if tier == "quick":
-        for i in range(0, 4800, 60):
-            yield {"seed": seed, "index": i, "count": 60}
+        for i in range(0, 12000, 75):
+            yield {"seed": seed, "index": i, "count": 75}
     else:
         i = 0
         while True:
